@@ -370,7 +370,7 @@ def yuv_plane(rng, w, h, style):
     if style == 2:
         return [v for y in range(h) for v in [rng.randint(0, 255)] * w]
     if style == 3:
-        return [rng.randint(0, 255)] * (w * h)
+        return [rng.choice([128, 128, rng.randint(0, 255)])] * (w * h)
     if style == 4:
         rows = []
         for y in range(h):
@@ -382,6 +382,15 @@ def yuv_plane(rng, w, h, style):
     if style == 5:
         a, b = rng.randint(0, 255), rng.randint(0, 255)
         return [rng.choice([a, b]) for _ in range(w * h)]
+    if style == 6:   # neutral (128) except the last column
+        return [rng.randint(0, 255) if x == w - 1 else 128 for y in range(h) for x in range(w)]
+    if style == 7:   # neutral except one sample
+        p = [128] * (w * h)
+        if p:
+            p[rng.randrange(len(p))] = rng.randint(0, 255)
+        return p
+    if style == 8:   # neutral except every second sample of some rows
+        return [rng.randint(0, 255) if (x % 2 == 1 and y % 2 == 0) else 128 for y in range(h) for x in range(w)]
     return [rng.randint(0, 255) for _ in range(w * h)]
 
 
@@ -392,6 +401,9 @@ def yuv_size_cases(rng, sizes, structured=False):
         if structured:
             # independent styles per plane: rows / columns of one plane repeat while another plane changes
             sy, sb, sr = rng.choice([1, 1, 4, 3, 2, 5]), rng.choice([1, 1, 3, 4, 2, 0]), rng.choice([2, 0, 2, 4, 1, 5])
+            if rng.random() < 0.4:
+                # (nearly) neutral chroma: constant 128 with a deviating last column / single sample / alternate samples
+                sb, sr = rng.choice([(6, 6), (3, 7), (7, 6), (8, 3), (6, 8), (7, 7)])
             if rng.random() < 0.5:
                 sb, sr = sr, sb
         else:
